@@ -948,8 +948,12 @@ func (c *Context) Exp(d, x *Decimal) (Condition, error) {
 		// This algorithm doesn't work if currentprecision*23 < |x|. Attempt to
 		// increase the working precision if needed as long as it isn't too large. If
 		// it is too large, don't bump the precision, causing an early overflow return.
-		if ncp := f / 23; ncp > float64(cp) && ncp < 1000 {
-			cp = uint32(math.Ceil(ncp))
+		if ncp := f / 23; ncp >= float64(cp) && ncp < 1000 {
+			// f is only the float64 nearest to |x|: |x| can exceed 23*ceil(f/23)
+			// by less than float64 resolution (x = 230.0000000000000000000000001),
+			// which the exact comparison below would take for an overflow. One
+			// more digit of working precision covers that.
+			cp = uint32(math.Ceil(ncp)) + 1
 		}
 	}
 	var tmp2 Decimal
